@@ -18,16 +18,18 @@
 import json, os, subprocess, time, hashlib
 from lib.common import *
 
-MECHS = ["ReuseTypedSibling", "ReuseTypedDropsDiags", "UncommittedEditStaleTyped",
+MECHS = ["ReuseTypedSibling", "ReuseTypedDropsDiags", "CancelledEditStaleTyped", "FailedEditStaleTyped",
          "StaleTokensOtherFile", "DanglingDeclAfterGC"]
 WHAT = {
     "ReuseTypedSibling": "a module that `use`s an item of an edited SIBLING module is not re-checked (cache "
                          "dependencies are submodules only): its new/changed diagnostics are missing (F14)",
     "ReuseTypedDropsDiags": "diagnostics of a reused (not re-checked) module are not re-emitted: after an edit "
                             "elsewhere the server's diagnostics lose the errors of every unedited module",
-    "UncommittedEditStaleTyped": "an edit whose compilation was cancelled or failed commits nothing; the next edit "
-                                 "of another file sees that module's version as None => fresh and reuses its stale "
-                                 "typed form (F13)",
+    "CancelledEditStaleTyped": "an edit whose compilation was cancelled commits nothing; the next edit of another "
+                               "file sees that module's version as None => fresh and reuses its stale typed form, "
+                               "so the cancelled edit is never compiled (F13)",
+    "FailedEditStaleTyped": "an edit whose compilation failed (typed program unavailable) commits nothing; later "
+                            "edits of other files reuse that module's stale typed form",
     "StaleTokensOtherFile": "only the modified file's tokens are re-collected: references in other files keep "
                             "pointing at the old position of a definition",
     "DanglingDeclAfterGC": "garbage collection of the edited module frees declaration slots still referenced by a "
@@ -207,7 +209,7 @@ def gen_histories(ctx):
     if not ctx.quick:
         allr = ctx.tlc("MC_LspIncr", "MC_LspIncr_all", workers=1, count=False, timeout=1500)
         pool += [("all", r) for r in allr.printed("REPLAY")]
-    sims = [("MC_LspIncr_sim", 11, 400), ("MC_LspIncr_sim3", 12, 400), ("MC_LspIncr_simc", 13, 400)] if ctx.quick else \
+    sims = [("MC_LspIncr_sim", 11, 600), ("MC_LspIncr_simc", 13, 600)] if ctx.quick else \
            [("MC_LspIncr_sim", 11, 2500), ("MC_LspIncr_sim3", 12, 2500), ("MC_LspIncr_simc", 13, 2500),
             ("MC_LspIncr_simc6", 14, 1500)]
     for cfg, seed, num in sims:
@@ -240,22 +242,22 @@ def run(ctx):
     if never:
         raise ToolError("vacuous model check: actions never taken: %s" % never)
 
-    # 2. a shortest history per mechanism
+    # 2. a shortest history per mechanism (one breadth-first run; it stops once all have been seen)
     ce = {}
-    for m in MECHS:
-        r = ctx.tlc("MC_LspIncr", "MC_LspIncr_ce", workers=1, env={"MECH": m}, name="ce-" + m, timeout=1500)
-        if r.violated:
-            reps = r.printed("REPLAY")
-            if not reps:
-                raise ToolError("counterexample for %s not printed" % m)
-            ce[m] = _norm_hist(reps[-1], "ce-" + m)
-            ce[m]["dead"] = reps[-1].get("dead", False)
+    r = ctx.tlc("MC_LspIncr", "MC_LspIncr_ce", workers=1, name="ce", timeout=1500)
+    if r.violated not in (None, "StopWhenAllSeen"):
+        raise ToolError("unexpected result of the counterexample search: %s" % r.violated)
+    for rep in r.printed("REPLAY"):
+        m = rep["target"]
+        if m not in ce:
+            ce[m] = _norm_hist(rep, "ce-" + m)
+            ce[m]["dead"] = rep.get("dead", False)
 
     # 3. history pool
     hists = gen_histories(ctx)
     pool_size = len(hists)
     if ctx.quick:
-        hists = slice_for_seed(hists, ctx.seed, 150)
+        hists = slice_for_seed(hists, ctx.seed, 120)
     ces = list(ce.values())
     # the model's counterexamples that end in a failed / crashed compilation depend on slot re-use, which the model
     # leaves open: they are replayed, but only a confirmed disagreement is reported
